@@ -8,6 +8,7 @@ pub mod c08;
 pub mod c09;
 pub mod c10;
 pub mod c11;
+pub mod c17;
 pub mod c19;
 pub mod c20;
 pub mod c21;
@@ -92,6 +93,7 @@ pub fn registry() -> Vec<PropInfo> {
     v.extend(c24::props());
     v.extend(c25::props());
     v.extend(structural::props());
+    v.extend(c17::props());
     v.extend(c19::props());
     v.extend(c20::props());
     v.extend(c21::props());
